@@ -5,7 +5,7 @@ import numpy as np
 
 from symtt.core import scenario
 from symtt import dense as D
-from .common import all_shapes, pick, is_edge, mk_cores, meta_ok
+from .common import free_policy, all_shapes, pick, is_edge, mk_cores, meta_ok
 
 META = {
     'explanation': 'Every value-level operation of scikit_tt.tensor_train.TT (full, matricize, element, +, -, scalar *, @, '
@@ -205,8 +205,7 @@ def constructors(ctx, shape):
     # rand: fresh uniforms in [0,1); the value is the contraction of whatever was drawn
     if ctx.sym:
         from symtt import state, lapack
-        state.reset()
-        lapack.set_policy(lapack.FreePolicy())
+        free_policy(ctx)
         r = tt.rand(rows, cols, ranks)
         draws = [c.a if hasattr(c, 'a') else c.r for c in state.S.stub_log if c.kind == 'rand']
         ctx.check('rand: one draw per core with the core shape',
@@ -259,8 +258,7 @@ def norm2(ctx, shape, cplx):
         ctx.eq('norm(p=2) == Frobenius norm of the dense tensor', t.norm(p=2) ** 2, D.frob2(ctx, ref), tol=1e-7)
         return
     from symtt import state, lapack
-    state.reset()
-    lapack.set_policy(lapack.FreePolicy(assume_sorted_spectrum=False))
+    free_policy(ctx)
     val = t.norm(p=2)
     log = list(state.S.stub_log)
     svds = [c for c in log if c.kind == 'svd']
@@ -320,8 +318,7 @@ def norm1(ctx, shape):
     sums = [D.sum_((D._get(ref, (i, j)) for i in range(ref.shape[0])), ctx) for j in range(ref.shape[1])]
     if ctx.sym:
         from symtt import state, lapack
-        state.reset()
-        lapack.set_policy(lapack.FreePolicy())
+        free_policy(ctx)
         val = t.norm(p=1)
         mx = [c for c in state.S.stub_log if c.kind == 'max']
         ctx.check('norm1: one max over the column sums', len(mx) == 1 and mx[0].axis is None)
@@ -404,8 +401,7 @@ def residual(ctx, shape, ranks_x, ranks_b, cplx):
         ctx.eq('residual_error == ||A x - b||', tt.residual_error(A, x, b) ** 2, D.frob2(ctx, resid), tol=1e-7)
         return
     from symtt import state, lapack
-    state.reset()
-    lapack.set_policy(lapack.FreePolicy(assume_sorted_spectrum=False))
+    free_policy(ctx)
     val = tt.residual_error(A, x, b)
     log = list(state.S.stub_log)
     svds = [c for c in log if c.kind == 'svd']
